@@ -51,6 +51,8 @@ def full_config(rng, nservers=1, nodeid=None, minimal=False, drop=(), tmrnum=Non
     cfg.add(Obj(0x2030, 2, RW, "usr", "U", 2, 0x109, 0x109, "6090031", 7))          # range + user abort
     cfg.add(Obj(0x2030, 3, RW, "usr", "U", 0, 0, 0, 0, 7))                          # size 0
     cfg.add(Obj(0x2030, 4, RW, "usr", "U", 6, 0, 0, 0, 7))                          # size 6
+    if rng.random() < 0.2:
+        cfg.add(Obj(0x2031, 0, RW, "usr", "U", 1, 0, 0, rng.choice(["c0de0082", "c0de0081"]), 0))      # a "reset device" object: its write function resets the node
     if "1016" not in drop:
         n = rng.choice([1, 2, 4])
         nodes = rng.sample([2, 3, 5, 10, 127, 126], n)
